@@ -683,3 +683,31 @@ func zzH14_tok_number() {
 	zzCheckLex(s, "number")
 	zzReach("end")
 }
+
+// zzH14_tok_unicode: one symbolic non-ASCII Unicode scalar value r inside an
+// identifier: `x<r> y`. Identifiers are sequences of Unicode letters, digits
+// and '_' (spec); columns count runes, not bytes, so `y` is at column 4
+// whatever the encoded size of r. A non-letter r is rejected.
+func zzH14_tok_unicode() {
+	r := zzI32("r")
+	zzAssume(zzAnd(r >= 0x80, r <= 0x10FFFF))
+	zzAssume(zzNot(zzAnd(r >= 0xD800, r <= 0xDFFF)))
+	enc := zzEncodeRune(r)
+	src := "x" + enc + " y"
+	got, err := zzScanAll(src, 8)
+	letter := zzIsUnicodeLetter(r)
+	zzObserve("err", err != nil)
+	zzAssert((err == nil) == letter, "C14.tok.unicode.accept_iff_letter")
+	if err == nil {
+		zzAssert(len(got) == 3, "C14.tok.unicode.count")
+		if len(got) == 3 {
+			zzAssert(zzAnd(got[0].kind == IDENT, zzAnd(got[0].raw == "x"+enc, zzAnd(got[0].line == 1, got[0].col == 1))), "C14.tok.unicode.first")
+			zzAssert(zzAnd(got[1].kind == IDENT, zzAnd(got[1].raw == "y", zzAnd(got[1].line == 1, got[1].col == 4))), "C14.tok.unicode.rune_column")
+			zzAssert(got[2].kind == EOF, "C14.tok.unicode.eof")
+		}
+	} else {
+		_, positioned := err.(Error)
+		zzAssert(positioned, "C14.tok.unicode.positioned_error")
+	}
+	zzReach("end")
+}
